@@ -244,6 +244,23 @@ func (c34) Gen(seed int64, tier string, emit func(any)) {
 		}
 		e(b.String())
 	}
+	// `?` attached to a word on either side, and every white-space-like rune between a name
+	// and what follows (the block parser separates on space, tab and CR; FF and VT are word runes)
+	for _, c1 := range []string{"out", "rm", "g"} {
+		for _, q := range []string{"?", " ?", "? ", " ? ", "\t?", "?\t", "a?", "a? ", " a?b ", "?b ", "\r? "} {
+			for _, c2 := range []string{"rm", "out", "et"} {
+				e(c1 + " x" + q + c2 + " y | out ")
+				e(c1 + q + c2 + " y | out ")
+			}
+		}
+		for _, ws := range []string{"\t", "\f", "\v", "\r", " \t", "\r ", "\f ", " \v", "\t\t"} {
+			for _, c2 := range []string{"rm", "out"} {
+				e(c1 + ws + c2 + " y | out ")
+				e(c1 + " a;" + ws + c2 + ws + "y | out ")
+				e(c1 + ws + "a" + ws + "|" + ws + c2 + ws + "y | out ")
+			}
+		}
+	}
 	c34GenGrammar(seed, tier, emit)
 }
 
